@@ -311,8 +311,8 @@ class InterpCore:
         if isinstance(v, Term) and v.op == "not":
             t = self.truth(v.args[0])
             return None if t is None else (not t)
-        if isinstance(v, Sym) and v.kind in ("Schema", "function", "PathHolder", "ValidationResult"):
-            return True
+        if isinstance(v, Sym) and v.kind in ("Schema", "function", "ValidationResult"):
+            return True     # (a th.PathHolder defines __len__: the root path is falsy - its truth value is not known)
         return None
 
     def resolve(self, v: V) -> V:
